@@ -21,6 +21,9 @@ type genTrack struct {
 	count   int
 	par     int
 	started bool
+	bf      bool    // H264 with frame reordering (muxer_bframes.go)
+	bfPTS   []int64 // planned presentation / decode times of the pattern
+	bfDTS   []int64
 }
 
 func (muxerSlice) Corpus() [][]string {
@@ -179,6 +182,16 @@ func (muxerSlice) Gen(r *rand.Rand, _ int, tier string) ([]string, []string) {
 			t.nextPTS += int64(r.Intn(t.rate/2+1)) - int64(t.rate/4) // tracks start at slightly different instants
 		}
 	}
+	for i, t := range tracks {
+		if t.codec == "h264" && r.Intn(5) == 0 && !exactMinus10 {
+			if pts, dts, ok := bfPlan(t.nextPTS, 2000); ok {
+				t.bf, t.bfPTS, t.bfDTS = true, pts, dts
+				t.frame = 3000
+				tags = append(tags, "h264-reordering")
+				ops[1+i] += " bf=1" // ops[0] = start, ops[1..] = track lines
+			}
+		}
+	}
 	ntpBase := int64(1600000000000) + int64(r.Intn(1000000))
 	midGOP := r.Intn(4) == 0
 	if midGOP {
@@ -235,7 +248,32 @@ func (muxerSlice) Gen(r *rand.Rand, _ int, tier string) ([]string, []string) {
 			fill = 100 + r.Intn(600)
 		}
 		var op string
-		if isVideoCodec(t.codec) {
+		if t.bf {
+			// H264 with frame reordering: decode order and times come from the planned pattern
+			i := t.count
+			k := i % len(bfPattern)
+			ra := k == 0
+			par := 0
+			if ra {
+				par = 1
+				t.started = true
+			}
+			pay++
+			pts = t.bfPTS[i]
+			ntp = ntpBase + int64(float64(pts)/float64(t.rate)*1000) - int64(baseSec*1000)
+			if ntp < 0 {
+				ntp = 0
+			}
+			size := mxH264Sizes(variant, bfBuildAU(par, k, pay))
+			op = fmt.Sprintf("w t=%d pts=%d dts=%d ntp=%d ra=%s pic=1 par=%d pays=%d sizes=%d fill=0 bf=%d", best, pts, t.bfDTS[i], ntp, b01(ra), par, pay, size, k)
+			t.count++
+			if t.count < len(t.bfDTS) {
+				t.nextPTS = t.bfDTS[t.count]
+			} else {
+				t.nextPTS += int64(t.rate) * 1000000 // the plan is exhausted: this track stops
+				t.bf = false
+			}
+		} else if isVideoCodec(t.codec) {
 			ra := t.count%t.gop == 0
 			if midGOP && t.count < 1+t.gop/2 && !t.started && !exactMinus10 {
 				ra = false
